@@ -150,11 +150,13 @@ theorem expr_refines_partial (sc : FnM.Scope) (rest : List FnM.Scope) (xs : List
   FnRefine.expr_refines_partial sc rest xs n e hro hid σ hI hsc
 
 /-- **expr_refines_assign** — the evaluator simulation for the read-only fragment plus assignments `x = e` to local
-    bindings (see FnRefineLW): same value or same error, and the two final states correspond again (`absSt`) and have
-    the SHAPE of the initial state (same heap and scopes, same stashes up to the values bound in declarative stashes),
+    bindings and to existing properties of object records – global variables, properties of `with` objects – (see
+    FnRefineLW): same value or same error, and the two final states correspond again (`absSt`) and have the SHAPE of the
+    initial state (same scopes; same objects up to the values of their properties, `name` excepted; same stashes up to
+    the values bound in declarative stashes),
     from which `LWInv` follows again (`LWInv.shape`) – unless otto runs out of fuel.  The reference of the left-hand
     side is made before the right-hand side runs on both sides; it stays valid because the right-hand side cannot
-    change the shape.  Open: assignments that reach an object record or create a global, property access, allocation
+    change the shape.  Open: assignments that CREATE a property (an undeclared global, a deleted binding), property access, allocation
     (needs the address-renaming relation), calls, statements. -/
 theorem expr_refines_assign (sc : FnM.Scope) (rest : List FnM.Scope) (xs ys : List String) (n : Nat) (e : Fn.FE)
     (hlw : lw e = true) (hrd : ∀ x ∈ reads e, x ∈ xs) (hwr : ∀ y ∈ writes e, y ∈ ys) (σ : FnM.St)
@@ -371,17 +373,20 @@ example : ROSim 7 (.cond (.lt (.var "x") (.var "y")) (.log (.var "y")) (.var "no
 example : (match evalV 7 (.cond (.lt (.var "x") (.var "y")) (.log (.var "y")) (.var "nowhere")) σ1s with
     | .ok v s => (v, s.trace) | _ => (.undef, [])) = (.num 2, ["n2"]) := by decide
 
-/-- `y` and `me` are bindings of the function stash 2 -/
-theorem lwInv_σ1s : LWInv σ1s { lexical := 2, variable_ := 2, this := FnM.gObj } [] ["x", "y", "nowhere", "me"] ["y", "me"] :=
+/-- `y` and `me` are bindings of the function stash 2, `x` is a property of the `with` object around it -/
+theorem lwInv_σ1s : LWInv σ1s { lexical := 2, variable_ := 2, this := FnM.gObj } [] ["x", "y", "nowhere", "me"] ["y", "me", "x"] :=
   ⟨⟨fun x hx => by
       simp only [List.mem_cons, List.mem_nil_iff, or_false] at hx
       rcases hx with rfl | rfl | rfl | rfl <;> exact visible_of_check σ1s _ (by decide),
     rfl, (noArgs_checks σ1s (by decide)).1, (noArgs_checks σ1s (by decide)).2, errWF_of_check σ1s (by decide),
-    (stash_checks σ1s (by decide)).1, clsWF_of_check σ1s (by decide)⟩, rfl, (stash_checks σ1s (by decide)).2, fun y hy => by
+    (stash_checks σ1s (by decide)).1, clsWF_of_check σ1s (by decide)⟩, rfl, (stash_checks σ1s (by decide)).2,
+   writableWF_of_check σ1s (by decide), protoDesc_of_check σ1s (by decide), fun y hy => by
     simp only [List.mem_cons, List.mem_nil_iff, or_false] at hy
-    rcases hy with rfl | rfl
-    · exact ⟨2, _, by decide, by decide, rfl⟩
-    · exact ⟨2, _, by decide, by decide, rfl⟩⟩
+    rcases hy with rfl | rfl | rfl
+    · exact ⟨by decide, 2, by decide, Or.inl ⟨by decide, _, rfl⟩⟩
+    · exact ⟨by decide, 2, by decide, Or.inl ⟨by decide, _, rfl⟩⟩
+    · -- `x` is an own property of the `with` object 11 (object stash 1)
+      exact ⟨by decide, 1, by decide, Or.inr ⟨some 0, 11, _, _, rfl, rfl, rfl, (by intro _ _ h; cases h), (by intro _ h; cases h)⟩⟩⟩
 
 /-- `log(y = y + x) < (y = y + y)`: two assignments to the local `y`, the second sees the first -/
 example : LWSim 8 (.lt (.log (.assign "y" (.add (.var "y") (.var "x")))) (.assign "y" (.add (.var "y") (.var "y"))))
@@ -396,5 +401,12 @@ example : (match evalV 8 (.add (.assign "me" (.lit (.num 5))) (.typeof (.var "me
     (.str "5function", [("y", .num 2), ("me", .ref 3)]) := by decide
 example : LWSim 8 (.add (.assign "me" (.lit (.num 5))) (.typeof (.var "me"))) { lexical := 2, variable_ := 2, this := FnM.gObj } σ1s :=
   expr_refines_assign _ [] _ _ 8 _ rfl (by decide) (by decide) σ1s lwInv_σ1s
+
+/-- `x = x + y` reaches the `with` object (object record): its property is updated, on both sides -/
+example : LWSim 8 (.log (.assign "x" (.add (.var "x") (.var "y")))) { lexical := 2, variable_ := 2, this := FnM.gObj } σ1s :=
+  expr_refines_assign _ [] _ _ 8 _ rfl (by decide) (by decide) σ1s lwInv_σ1s
+example : (match evalV 8 (.log (.assign "x" (.add (.var "x") (.var "y")))) σ1s with
+    | .ok v s => (v, s.trace, ((s.obj? 11).map fun o => o.props.map fun kp => (kp.1, kp.2.value)).getD []) | _ => (.undef, [], [])) =
+    (.num 3, ["n3"], [("x", .num 3), ("f", .ref 3)]) := by decide
 
 end OttoVerif.C01.FnThm
